@@ -50,4 +50,10 @@ def accepts (s : List Char) : Bool :=
   | none => false
   | some ts => (parseTokens false ts).isSome
 
+/-- Recogniser view with explicit fuel: *some* parse of the start rule consumes the whole token stream. -/
+def acceptsAny (fuel : Nat) (s : List Char) : Bool :=
+  match lex Gen.lexRules (sentinel s) with
+  | none => false
+  | some ts => (parseRx Gen.grammar fuel (.ref 0) ts).any (fun (_, r) => r.isEmpty)
+
 end Gly.Model
